@@ -4,6 +4,8 @@ package sgc
 
 import (
 	"fmt"
+	"os"
+	"runtime/debug"
 	"time"
 
 	"verifharness/sg"
@@ -54,6 +56,9 @@ func CompileTexts(names []string, texts []string, o Opts) (res Result) {
 		defer func() {
 			if p := recover(); p != nil {
 				r.Panic = fmt.Sprint(p)
+				if os.Getenv("VERIF_DEBUG") != "" {
+					r.Panic += "\n" + string(debug.Stack())
+				}
 			}
 			done <- r
 		}()
